@@ -142,11 +142,11 @@ class QuicConnectionProtocol(asyncio.DatagramProtocol):
         """
         Wait for the TLS handshake to complete.
         """
-        assert self._connected_waiter is None, "already awaiting connected"
         if not self._connected:
             if self._closed.is_set():
                 raise ConnectionError
-            self._connected_waiter = self._loop.create_future()
+            if self._connected_waiter is None:
+                self._connected_waiter = self._loop.create_future()
             await asyncio.shield(self._connected_waiter)
 
     # asyncio.Transport
